@@ -515,3 +515,74 @@ def c05_multi(n: int, s: str, n2: int, b: bool, n3: int, mode: int) -> bool:
         return verdict(len(dlog) == 1 and eqv(dlog[0], exp))
     got = [a for name, a in log if name == site]
     return verdict(len(got) == 1 and eqv(got[0], exp) and any(name == "sib" for name, _ in log))
+
+
+
+# ---- several directives on ONE location (query side and schema side): each hook receives its OWN directive's coerced arguments ------------------
+SDL_2 = """
+directive @da(i: Int, s: String = "as") on FIELD | FIELD_DEFINITION
+directive @db(j: Int = 9, l: [Int]) on FIELD | FIELD_DEFINITION
+directive @dc on FIELD | FIELD_DEFINITION
+type Query { sib: Int  deco: Int @da(i: 5, s: "sdl") @dc @db(l: [1]) }
+"""
+MODEL_2 = model_from_sdl(SDL_2)
+DLOG2 = []
+
+
+def _mk_dir(nm):
+    class _Dx:
+        async def on_field_execution(self, directive_args, next_resolver, parent, args, ctx, info):
+            DLOG2.append((nm, directive_args))
+            return await next_resolver(parent, args, ctx, info)
+    return _Dx()
+
+
+for _n in ("da", "db", "dc"):
+    Directive(_n, schema_name="c05_2")(_mk_dir(_n))
+Resolver("Query.sib", schema_name="c05_2")(_sib)
+Resolver("Query.deco", schema_name="c05_2")(_sib)
+ENG_2 = build(SDL_2, "c05_2", query_cache_decorator=None)
+DOCS_2 = [
+    ("query Q($a: Int, $b: Int) { sib @da(i: $a) @db(j: $b, l: [$a, 2]) }", [("da", {"i": "a", "s": "as"}), ("db", {"j": "b", "l": ["a", 2]})]),
+    ("query Q($a: Int, $b: Int) { sib @db(l: [$b]) @dc @da(i: $a, s: \"q\") }", [("db", {"j": 9, "l": ["b"]}), ("dc", {}), ("da", {"i": "a", "s": "q"})]),
+    ("query Q($a: Int, $b: Int) { deco @db(j: $a) @da(i: $b) }", [("db", {"j": "a"}), ("da", {"i": "b", "s": "as"}), ("da", {"i": 5, "s": "sdl"}), ("dc", {}), ("db", {"j": 9, "l": [1]})]),
+    ("query Q($a: Int, $b: Int) { sib @dc @da(i: $a) x: sib @da(i: $b) @dc }", [("dc", {}), ("da", {"i": "a", "s": "as"}), ("da", {"i": "b", "s": "as"}), ("dc", {})]),
+]
+for _q, _ in DOCS_2:
+    env.run(ENG_2.execute(_q, variables={"a": 1, "b": 2}))
+
+
+@obligation(tier="quick", timeout=120, shards=[{"doc": d} for d in range(len(DOCS_2))],
+            samples=[{"a": 1, "b": 2}, {"a": 0, "b": -2 ** 31}, {"a": None, "b": 7}],
+            symbolic=["a, b: Optional[int] — variables used in the directives' arguments"],
+            selectors=["shard: document (2-3 directives on one field in different orders, query-side next to schema-side directives, two fields with the same directives swapped)"],
+            bounds="4 documents, 3 directives (one without arguments, two with defaults)",
+            note="with several directives on one location every hook receives the coerced arguments of ITS OWN directive (defaults included), in declaration order, query-side before schema-side")
+def c05_two_directives(a: Optional[int], b: Optional[int]) -> bool:
+    """
+    post: _
+    """
+    q, exp = DOCS_2[shard()["doc"]]
+    for x in (a, b):
+        if x is not None and not (-2 ** 31 <= x < 2 ** 31):
+            return True
+    del DLOG2[:]
+    ok, r = safe(lambda: env.run(ENG_2.execute(q, variables={"a": a, "b": b})))
+    got = list(DLOG2)
+    observe(q, r, got)
+    if not ok or r.get("errors"):
+        return verdict(False)
+
+    def inst(v):
+        if isinstance(v, dict):
+            return {k: inst(x) for k, x in v.items()}
+        if isinstance(v, list):
+            return [inst(x) for x in v]
+        return a if v == "a" else (b if v == "b" else v)
+    want = [(nm, inst(args)) for nm, args in exp]
+    if len(got) != len(want):
+        return verdict(False)
+    for (gn, ga), (wn, wa) in zip(got, want):
+        if gn != wn or not eqv(ga, wa):
+            return verdict(False)
+    return verdict(True)
